@@ -46,11 +46,23 @@ def c17_run(pid, tier):
     return engines
 
 
+def c19_run(pid, tier):
+    import c19_cfg
+    return c19_cfg.run(pid, tier)
+
+
 def spec(level, extra_assume=None, run=default_run):
     return {"level": level, "assumptions": COMMON_ASSUME + (extra_assume or []), "run": run}
 
 
 TABLE = {
+    "C19": spec("model_checking", [
+        "configurations enumerated: {std, alloc+libm, alloc+micromath} x {dim_check_release, no dim_check feature}; the harness "
+        "itself always links std, only rrtk's features vary",
+        "power-function dependent sections (EWMA, exponent stream) are compared exactly between checked/unchecked builds of "
+        "one back end, within 1e-5 of the scale between std and libm, and only structurally (categories, timestamps) against micromath, whose powf is a coarse approximation; each build also checks them "
+        "against its own back end's powf (C12 oracle)",
+        "the workloads are the enumerations listed in the rule, not arbitrary programs"], run=c19_run),
     "C17": spec("model_checking", [
         "thread clause: shuttle's scheduler is sequentially consistent and intercepts Mutex/RwLock operations, spawn/join and "
         "yield_now; weak-memory behaviour inside std's locks is std's responsibility; the property's '2..8 threads x 1e3..1e5 "
